@@ -10,6 +10,7 @@ import z3
 
 from . import logic as L
 from .logic import Val, I, B
+from .findings import lock_key
 
 
 # ---------------------------------------------------------------------------
@@ -116,6 +117,7 @@ class Env:
         self.vars = {}
         self.parent = parent
         self.global_names = set()       # names a `global` statement of this function frame refers to
+        self.nonlocal_names = set()
 
     def declares_global(self, name):
         e = self
@@ -252,6 +254,7 @@ class Exec:
         self.global_objs = {}
         self.global_refs = {}
         self.yield_hook = None
+        self.handling = []          # exceptions being handled (innermost last): what a bare `raise` re-raises
         self.global_cells = {}
         self.exc_instances = {}
         self.formatted = []
@@ -369,7 +372,7 @@ class Exec:
             status = 'proved' if goal else 'refuted'
             ob = Obligation(name, props, status, self.cur_func, self.path_id(), None, 0.0, info, static=True)
             if not goal:
-                conds = self.engine.finding_conds.get(name)
+                conds = self.engine.finding_conds.get(lock_key(name))
                 if conds and all(L.is_true(L.simp(c(self))) for _, c in conds):
                     ob.status = 'known'
                     ob.info = dict(info or {})
@@ -390,7 +393,7 @@ class Exec:
             status = 'refuted'
             model = self.summarise_model(self.solver.model(), info)
             # known findings: is every counterexample covered by the recorded failing branches?
-            conds = self.engine.finding_conds.get(name)
+            conds = self.engine.finding_conds.get(lock_key(name))
             if conds:
                 fs = [(fid, c(self)) for fid, c in conds]
                 cover = L.simp(z3.Or([f for _, f in fs]))
@@ -808,7 +811,11 @@ class Exec:
 
     def st_Raise(self, st, env):
         if st.exc is None:
-            raise Unsupported('bare raise')
+            if not self.handling:
+                self.raise_('RuntimeError', 'No active exception to reraise')
+            e = self.handling[-1]
+            self.event('raise', e.cls, 're-raise@%d' % st.lineno)
+            raise PyRaise(e.cls, 're-raise@%d' % st.lineno)
         cls = self.eval_exception(st.exc, env)
         self.event('raise', cls, 'explicit@%d' % st.lineno)
         raise PyRaise(cls, 'explicit@%d' % st.lineno)
@@ -857,9 +864,14 @@ class Exec:
                     if self.exc_matches(e.cls, h.type, env):
                         handled = True
                         if h.name:
-                            env.vars[h.name] = L.OpaqueV(L.OK['instance'], self.fresh_int('excinst'))
-                            self.exc_of = getattr(self, 'exc_of', {})
-                        self.exec_block(h.body, env)
+                            inst = L.OpaqueV(L.OK['instance'], self.fresh_int('excinst'))
+                            env.vars[h.name] = inst
+                            self.exc_instances[L.simp(inst).get_id()] = e.cls
+                        self.handling.append(e)
+                        try:
+                            self.exec_block(h.body, env)
+                        finally:
+                            self.handling.pop()
                         break
                 if not handled:
                     raise
@@ -913,15 +925,26 @@ class Exec:
                 raise Unsupported('del of non-subscript')
 
     def st_With(self, st, env):
-        if len(st.items) != 1:
-            raise Unsupported('multi-item with')
-        item = st.items[0]
-        self.engine.model.with_stmt(self, item, st.body, env)
+        body = st.body
+        for item in reversed(st.items[1:]):
+            # `with a, b:` is `with a:` around `with b:`
+            inner = ast.With(items=[item], body=body)
+            ast.copy_location(inner, st)
+            body = [inner]
+        self.engine.model.with_stmt(self, st.items[0], body, env)
 
     def st_For(self, st, env):
-        if st.orelse:
-            raise Unsupported('for-else')
         self.engine.loops.for_loop(self, st, env)
+
+    def st_Assert(self, st, env):
+        c = self.eval(st.test, env)
+        if not self.branch(self.truthy(c), 'assert@%d' % st.lineno):
+            if st.msg is not None:
+                self.eval(st.msg, env)
+            self.raise_('AssertionError', 'assert@%d' % st.lineno)
+
+    def st_Nonlocal(self, st, env):
+        env.nonlocal_names.update(st.names)
 
     def st_While(self, st, env):
         self.engine.loops.while_loop(self, st, env)
@@ -933,9 +956,16 @@ class Exec:
         raise ContinueEx()
 
     def st_Import(self, st, env):
-        raise Unsupported('import inside function')
+        # an import executed while the function runs (C02 reports it); the name denotes the module
+        for a in st.names:
+            self.event('import_stmt', a.name)
+            top = a.name if a.asname else a.name.split('.')[0]
+            env.vars[a.asname or top] = self.engine.resolve_import(self, top) if '.' not in top else St('module', top)
 
-    st_ImportFrom = st_Import
+    def st_ImportFrom(self, st, env):
+        for a in st.names:
+            self.event('import_stmt', (st.module or '') + '.' + a.name)
+            env.vars[a.asname or a.name] = self.engine.resolve_import(self, (st.module or '') + '.' + a.name)
 
     def st_Global(self, st, env):
         # assigning a module global from a function (reported by the static frame scan of C11):
@@ -965,6 +995,18 @@ class Exec:
             if env.declares_global(target.id):
                 self.event('global_write', self.cur_module, target.id)
                 self.global_cells[(self.cur_module, target.id)] = self.to_val(v)
+                return
+            e = env
+            while e is not None and target.id not in e.nonlocal_names:
+                e = e.parent
+            if e is not None:
+                # nonlocal: the binding of the nearest enclosing frame that has one
+                o = e.parent
+                while o is not None and target.id not in o.vars:
+                    o = o.parent
+                if o is None:
+                    raise Unsupported('nonlocal %s without an enclosing binding' % target.id)
+                o.vars[target.id] = v
                 return
             env.vars[target.id] = v
             return
@@ -1144,6 +1186,19 @@ class Exec:
 
     def ex_ListComp(self, node, env):
         return self.engine.loops.list_comp(self, node, env)
+
+    def ex_NamedExpr(self, node, env):
+        v = self.eval(node.value, env)
+        self.assign(node.target, v, env)
+        return v
+
+    def ex_Set(self, node, env):
+        # a display of distinct constants, as used on the right of `in`: membership and iteration are those of the tuple
+        if not all(isinstance(e, ast.Constant) for e in node.elts) or \
+                len({(type(e.value).__name__, e.value) for e in node.elts}) != len(node.elts):
+            raise Unsupported('set display of non-constants')
+        self.event('set_display', len(node.elts))
+        return tuple(self.eval(e, env) for e in node.elts)
 
     def ex_GeneratorExp(self, node, env):
         lc = ast.ListComp(elt=node.elt, generators=node.generators)
